@@ -330,6 +330,20 @@ def plan(ctx):
                                         'fields * unit + numerator of the printed seconds == usecs; h<24, m<60, s<60; requested precision'))
     groups.append(Group(name='stub.c18_fdiv.bounds', harness='harness/C18/duration.c', entry='h_fdiv', function='(double)num / den (model lemma)',
                         enforce='c18_fdiv', defines=['DUR_LO=0', 'DUR_HI=0'], kind='lemma', first='cvc5', stage1=60, timeout=300))
+    ut = timeval_unit(ctx, src)
+    ut.write()
+    ctx.functions_under_contract += ut.functions
+    HT = 'harness/C18/timeval.c'
+    RT = lambda mode: Replay(driver='C18/time.cc', mode=mode, sources=ALL_LIB)
+    groups.append(Group(name='Time.usecs_to_timeval', harness=HT, entry='h_usecs_to_timeval', function='usecs_to_timeval', enforce='usecs_to_timeval',
+                        first='cvc5', stage1=20, min_post=3, replay=RT('usecs_to_timeval'),
+                        clause_note='0 <= tv_usec < 10^6, tv_sec * 10^6 + tv_usec == usecs'))
+    groups.append(Group(name='Time.timeval_to_usecs', harness=HT, entry='h_timeval_to_usecs', function='timeval_to_usecs', enforce='timeval_to_usecs',
+                        first='cvc5', stage1=20, min_post=2, replay=RT('timeval_to_usecs')))
+    groups.append(Group(name='Time.timeval.roundtrip_usecs', harness=HT, entry='l_roundtrip_usecs', function='timeval_to_usecs(usecs_to_timeval(u)) == u',
+                        replace=['usecs_to_timeval', 'timeval_to_usecs'], kind='lemma', first='cvc5', stage1=20, replay=RT('roundtrip_usecs')))
+    groups.append(Group(name='Time.timeval.roundtrip_timeval', harness=HT, entry='l_roundtrip_timeval', function='usecs_to_timeval(timeval_to_usecs(tv)) == tv',
+                        replace=['usecs_to_timeval', 'timeval_to_usecs'], kind='lemma', first='cvc5', stage1=20, replay=RT('roundtrip_timeval')))
     INTBLAST = dict(engines=['cvc5'], cbmc_flags=['--external-smt2-solver', os.path.join(VERIF, 'tools', 'C18_cvc5_int.sh')], stage1=120, timeout=120)
     groups.append(Group(name='lemma.nested_div', harness='harness/C18/duration.c', entry='h_lemma_nested_div', function='u / (a*b) == (u / a) / b (arithmetic lemma)',
                         enforce='c18_lemma_nested_div', defines=['DUR_LO=0', 'DUR_HI=0'], kind='lemma', min_post=2, **INTBLAST))
